@@ -80,11 +80,12 @@ func run(c *vf.Ctx) {
 		replay(c)
 		return
 	}
-	c.SetRule("serix part: a case is one (type shape, value, validation on/off) triple; shapes come from a seeded grammar over run-time built Go types (reflect.StructOf/SliceOf/ArrayOf/MapOf/PointerTo, registered on a fresh serix.API per universe, dynamic struct types registered as implementations of two interface types) plus a hand-declared static universe (methods, embedding, custom codecs, named types); values are boundary-biased. evaluations = accepted encodings that were decoded and compared (binary + JSON) plus stream read-backs; distinct_nontrivial = distinct shape trees (hash of the rendered schema) with at least one accepted non-zero value; distinct_feature_pairs = parent∘child schema features co-occurring in an exercised shape; stream part: a case is (helper pair, writer, chunking reader, seeded payload sequence)")
+	c.SetRule("serix part: a case is one (type shape, value, validation on/off) triple; shapes come from a seeded grammar over run-time built Go types (reflect.StructOf/SliceOf/ArrayOf/MapOf/PointerTo, registered on a fresh serix.API per universe, dynamic struct types registered as implementations of two interface types) plus a hand-declared static universe (methods, embedding, custom codecs, named types); values are boundary-biased. evaluations = accepted encodings that were decoded and compared (binary + JSON) plus stream read-backs; distinct_nontrivial = distinct shape trees (hash of the rendered schema) with at least one accepted non-zero value; distinct_feature_pairs = parent∘child schema features co-occurring in an exercised shape; stream part: a case is (helper pair, writer, chunking reader, seeded payload sequence); stream sequences: 3-8 mixed helper calls into one writer (bytes.Buffer, empty / pre-sized ByteBuffer, with an in-place same-size rewrite of one element), checked against a byte-level reference writer: offset after every call, whole buffer image, read-back through 8 readers incl. PeekSize")
 	a := &agg{c: c}
 	workers := runtime.NumCPU()
 	runSerix(c, a, workers)
 	runStream(c, a, workers)
+	runStreamSeq(c, a, workers)
 	runDS(c, a)
 	c.SetExhaustive(false)
 	if n := c.Get("json_bytes_vary_with_map_order_observation"); n > 0 {
@@ -106,6 +107,13 @@ func run(c *vf.Ctx) {
 	c.Require("toplevel_with_type_settings_cases", c.Pick(20000, 400000))
 	c.Require("feature_pairs", 90)
 	c.Require("stream_cases", 300)
+	c.Require("stream_sequences", c.Pick(12000, 240000))
+	c.Require("stream_presized_buffer_cases", c.Pick(5000, 100000))
+	c.Require("stream_inplace_rewrites", c.Pick(5000, 100000))
+	c.Require("stream_offset_checks", c.Pick(60000, 1200000))
+	c.Require("stream_sequence_readbacks", c.Pick(90000, 1800000))
+	c.Require("stream_peeksize_checks", c.Pick(50000, 1000000))
+	c.Require("stream_sequence_helpers", 100)
 	c.Assume("reflect, encoding/json and math/big of the Go toolchain are correct; the harness's own Build/Extract (value tree <-> Go value) is validated by the fact that the fresh-destination comparison is silent on the vast majority of shapes")
 }
 
